@@ -343,6 +343,28 @@ def add_probes(sc, rng, n=2):
     sc['steps'] = steps; sc['name'] += '-p'
     return sc
 
+def contract_part(prop, tier, seed, work, replay_scenario=None):
+    """The guards of ServerContract that carry the tag of a property whose own check is a table (C02: an invalid, unknown
+    or reply-shaped member never runs and gets the error of its class - also inside the histories of the server family:
+    under concurrency, across restarts, next to callbacks).  Returns (violations, info)."""
+    w = os.path.join(work, 'cp'); os.makedirs(w, exist_ok=True)
+    binp = C.build_harness('srvfam', w)
+    if replay_scenario is not None:
+        scs = [replay_scenario]
+    else:
+        scs = gen_scenarios('C01', 'quick', seed + 3, 40 if tier == 'quick' else 600)
+        for sc in scs: sc['name'] = prop + '~' + sc['name']
+    traces, info = C.run_scenarios(binp, scs, w)
+    if info['tool_trouble']:
+        raise C.ToolError('; '.join(info['tool_trouble']))
+    tmpl = open(os.path.join(C.SPEC, 'cfg', 'trace_server.cfg.tmpl')).read()
+    accepted, rej = C.validate_traces(traces, 'ServerContract', {prop}, tmpl, w)
+    byname = {s['name']: s for s in scs}
+    violations, anomalies = C.confirm_rejections(prop, rej, lambda n: byname[n], lambda sc, ww: C.run_scenarios(binp, [sc], ww, nworkers=1)[0], 'ServerContract', tmpl, w,
+                                                 extra=lambda name: dict(family='srv'))
+    return violations, dict(contract_scenarios=len(scs), contract_traces_validated=accepted + len(rej))
+
+
 def gen_scenarios(prop, tier, seed, nsim):
     rng = random.Random(seed * 7919 + zlib.crc32(prop.encode()) % 1000)
     _, _, simcfgs, depth = FAMILY[prop]
